@@ -1289,8 +1289,13 @@ func (r *Raft) election() {
 // sendRequestVoteToPeers sends a RequestVoteRPC to all nodes in the cluster,
 // excluding those that are non-voters.
 func (r *Raft) sendRequestVoteToPeers() {
-	// Handle the single node cluster case.
+	// Handle the single node cluster case. No votes from other nodes are required,
+	// but a new term must be started nonetheless - there must never be more than
+	// one leader in a term.
 	if r.isSingleServerCluster() {
+		if r.state == PreCandidate {
+			r.becomeCandidate()
+		}
 		r.becomeLeader()
 		return
 	}
